@@ -5,6 +5,8 @@ from livemodel import LiveModel
 from storemodel import StoreModel
 from ackmodel import AckModel
 
+from sym import ipaths
+
 LEVEL = "other"
 EXPLANATION = ("Every queued Put/PutWithTTL of the put APIs is dominated by the false edge of the store's presence "
                "predicate for the same key; the true edge answers rejected(KeyAlreadyExists) on the spot without "
@@ -26,46 +28,61 @@ def run(ctx):
     ctx.floor("R07.1", "presence / readability predicates over the store", len(S.presence_fns) + len(S.readable_fns) + len(S.filtered_presence_fns), 1)
     # ---- R07.1 / R07.2 ------------------------------------------------------------------------------
     n_api = 0
+    preds = set(S.presence_fns) | set(S.readable_fns) | set(S.filtered_presence_fns)
+    pred_key = dict(S.presence_fns)
+    pred_key.update(S.readable_fns)
+    pred_key.update(S.filtered_presence_fns)
+    api_ret = lambda g: "CommandAcknowledgement" in g.rec.get("ret", "")
     for name, f in F.fns.items():
-        if not f.rec.get("reachable") or f.kind == "Closure":
-            continue
-        sends = []
-        for bb, t in f.calls():
-            if t.get("rpath") in A.send_fns:
-                cmd = f.op_origin(t["args"][1])
-                if cmd[0] == "agg" and cmd[2] in ("Put", "PutWithTTL"):
-                    sends.append((bb, t, cmd))
-        if not sends:
+        if not f.rec.get("reachable") or f.kind == "Closure" or not api_ret(f):
             continue
         # the upsert API reaches its Put through a failed in-place update (C08 R08.5), not through a presence test
         if any(dashmap_lookup_fn(F, S, t.get("rpath")) == "get_mut" for b, t in f.calls()):
             continue
+        # another public API it forwards to is judged on its own
+        stop = lambda n, me=name: n in A.send_fns or n in preds or (n != me and n in F.fns and F.fns[n].rec.get("reachable") and api_ret(F.fns[n]) and F.fns[n].kind != "Closure")
+        paths = ipaths(F, f, stop=stop, depth=2)
+        put_paths = []
+        for p in paths:
+            for e in p.calls(A.send_fns):
+                cmd = e.args[1]
+                if cmd[0] == "agg" and cmd[2] in ("Put", "PutWithTTL"):
+                    put_paths.append((p, e, cmd))
+        if not put_paths:
+            continue
         n_api += 1
         ctx.touch(f)
-        for bb, t, cmd in sends:
+        ctx.analysed["paths"] += len(paths)
+        bad1, badk = [], []
+        for p, e, cmd in put_paths:
             kd = inline_ctor(F, cmd[3][0][1])
             key = dict(kd[3]).get("key") if kd[0] == "agg" else None
             if key is None:
-                ctx.bad("R07.1", "%s|command-key" % name, "the key carried by the queued put could not be determined", f.where(bb), fmt(cmd)[:200])
+                bad1.append("the key carried by the queued put could not be determined (%s)" % fmt(cmd)[:100])
                 continue
-            edges = S.absence_edges(f, key, readable_too=True)
-            ok = bool(edges) and bb not in f.reach([0], avoid_edges=edges)
-            ctx.check(ok, "R07.1", "%s|absence-dominates-queueing" % name,
-                      "a put is queued only after the presence predicate reported this key absent", f.where(bb), "key=%s" % fmt(key))
-            ctx.check(key[0] == "param", "R07.1", "%s|same-key" % name, "the key tested is the key passed by the caller", f.where(bb))
-        # true edge: immediate rejection without effects
-        for b, expr, tt, ft in bool_branches(f):
-            if expr[0] == "call" and (expr[1] in S.presence_fns or expr[1] in S.readable_fns or expr[1] in S.filtered_presence_fns):
-                region = f.reach([tt])
-                eff = [x for x in region if f.term(x)["k"] == "call" and is_effectful(site_effects(F, f, x))]
-                vals = []
-                for p in enum_paths(f):
-                    if (b, tt) in zip(p, p[1:]):
-                        r = path_return(f, p)
-                        vals.append(r)
-                okv = bool(vals) and all(r[0] == "agg" and r[2] == "Ok" and mentions(r, lambda s: s[0] == "agg" and s[2] == "KeyAlreadyExists") for r in vals)
-                ctx.check(not eff and okv, "R07.2", "%s|present-rejects-without-effect" % name,
-                          "when the key is present the put is answered Ok(rejected(KeyAlreadyExists)) immediately, nothing is queued or changed", f.where(b))
+            tested = [a for a in p.atoms if a[0] == "bool" and a[1][0] == "call" and a[1][1] in preds and a[4] < e.seq
+                      and same_value(a[1][2][pred_key[a[1][1]] - 1], key)]
+            if not tested or any(a[2] for a in tested):
+                bad1.append("a put is queued on a path that did not find this key absent (%s)" % p.show())
+            if key[0] != "param":
+                badk.append(fmt(key))
+        ctx.check(not bad1, "R07.1", "%s|absence-dominates-queueing" % name,
+                  "a put is queued only after the presence predicate reported this key absent (%d symbolic paths queue a put)" % len(put_paths), f.where(), "; ".join(bad1[:2]))
+        ctx.check(not badk, "R07.1", "%s|same-key" % name, "the key tested is the key passed by the caller", f.where(), str(badk[:2]))
+        # present: immediate rejection without effects
+        bad2 = []
+        n_present = 0
+        for p in paths:
+            pres = [a for a in p.atoms if a[0] == "bool" and a[1][0] == "call" and a[1][1] in preds and a[2]]
+            if not pres:
+                continue
+            n_present += 1
+            eff = [e for e in p.events if not e.log and e.seq > pres[0][4] and (e.callee in A.send_fns or is_effectful(site_effects(F, e.fn, e.bb)))]
+            okv = p.ret_variant() == ("Ok",) and mentions(p.ret, lambda s_: s_[0] == "agg" and s_[2] == "KeyAlreadyExists")
+            if eff or not okv:
+                bad2.append("present key: effects %s, returned %s" % ([x.callee.split("::")[-1] for x in eff][:3], fmt(p.ret)[:80]))
+        ctx.check(not bad2 and n_present >= 1, "R07.2", "%s|present-rejects-without-effect" % name,
+                  "when the key is present the put is answered Ok(rejected(KeyAlreadyExists)) immediately, nothing is queued or changed", f.where(), "; ".join(bad2[:2]))
     ctx.floor("R07.1", "put APIs queueing Put/PutWithTTL behind a presence test", n_api, 3)
     # forwarding put -> put_with_weight keeps key and value
     for name, f in F.fns.items():
